@@ -21,13 +21,16 @@ The theorems are about `Uniflow.Codec.{encode, decode, generic, canon}` (Model/C
 
 Proved: `roundtrip` (unrestricted), `roundtrip_struct`, `no_panic`, `roundtrip_closed` (`v' = canon v`),
 `spec_roundtrip`, `generic_reencodes`, `encode_is_document`, the number / base64 laws of the JSON path and
-`roundtrip_json_partial`: the JSON round trip for every well-formed type – structs in statically typed positions
-(the `phase1` / `phase2` lemmas generalised over the JSON value map, Proofs/CodecStructG.lean) and `any` included –
-under the guards `jsonOK` and the static-type condition `jtOK` (an omitempty field whose type contains `any` is an
-`any`, pointer, slice or map).
-Stated and **not proved**: `roundtrip_json_full` without `jtOK` (omitempty arrays / structs with an open component;
-covered by the correspondence check, which sends every `js` line within the guards to the model, and by the oracle).
-Float32 values are outside the JSON statement (excluded by `jsonOK`).
+`roundtrip_json`: the JSON round trip for every well-formed type – structs in statically typed positions (the
+`phase1` / `phase2` lemmas generalised over the JSON value map, Proofs/CodecStructG.lean) and `any` included – under the
+guards `jsonOK`; `json_omitempty_stable` is the lemma that "encodes like the zero value" survives the JSON round trip
+for every type (lists and maps of re-encoded open values included).
+Float32 values are outside the JSON statement (excluded by `jsonOK`; oracle only).
+`*time.Time` (a pointer to a type with a text marshaler takes the RFC 3339 text form) is not a type of the model's
+universe; its two halves are modelled in Model/CodecTime.lean and tied to the repository by the harness (`pt` lines:
+the text; `as str … time` lines: decoding the text): `rfc3339_parse_format` proves parse ∘ format = id and
+`time_text_decodes` that the text decodes to the same instant. Values of type `*time.Time` inside generated types
+remain oracle-only.
 
 All statements quantify over every well-formed type (`GoType.wf`) and every value of it (`hasType`), any nesting
 depth and size: scalars of every width, `[]byte`, `[n]byte`, time, duration, uuid, pointers (to pointers), slices,
@@ -38,6 +41,7 @@ import Uniflow.Proofs.CodecCanon
 import Uniflow.Proofs.CodecSpec
 import Uniflow.Proofs.CodecJSON
 import Uniflow.Proofs.CodecJSONFull
+import Uniflow.Proofs.CodecTime
 
 open Uniflow.Value Uniflow.Codec
 
@@ -198,31 +202,36 @@ theorem C16.roundtrip_json_closed_nostruct_nonvacuous :
   decide
 
 
-/-- **C16 through JSON, partial – every well-formed type, structs in typed positions and `any` included.**
-Under the guards `jsonOK` (integers and millisecond counts within ±2^53, finite float64, **no float32** – its JSON
-text is the shortest decimal for float32, whose float64 reading is not modelled –, valid UTF-8 in strings, map keys and
-aliases) the document has a JSON form `j`, decoding `j` into the type succeeds, the decoded value carries the same
-JSON document, and for closed types it is the normal form `canon t v`.
-
-Missing for `roundtrip_json_full`: the static-type condition `jtOK t` – an omitempty field whose type contains `any`
-must itself be an `any`, a pointer, a slice or a map (the usual `Opts map[string]any \`json:",omitempty"\``), not an
-array or struct with an open component. For those the proof lacks "encodes like the zero value is preserved by the
-JSON round trip" (`Equal` on lists / maps of re-encoded open values); the correspondence check covers them. -/
-theorem C16.roundtrip_json_partial (t : GoType) (v : GoVal) (h : HasType v t) (g : jsonOK t v = true)
-    (hj : jtOK t = true) :
-    ∃ j, jsonForm (encode t v) = some j ∧
-      ∃ v', decode t j = .ok v' ∧ jsonForm (encode t v') = some j ∧ (closed t = true → v' = canon t v) := by
-  obtain ⟨w, d1, d2, d3, d4, _⟩ := rj v t h.1 h.2 g hj
+/-- **C16 through JSON.** For every well-formed type – structs in statically typed positions (named, omitempty,
+inline struct, inline map, ignored fields) and `any` included, any nesting – and every value of it within the guards
+`jsonOK` (integers and millisecond counts within ±2^53, finite float64, **no float32** – its JSON text is the shortest
+decimal for float32, whose float64 reading is not modelled –, valid UTF-8 in strings, map keys and aliases): the
+document has a JSON form `j`, decoding `j` into the type succeeds, the decoded value carries the same JSON document,
+and for closed types it is the normal form `canon t v`. -/
+theorem C16.roundtrip_json : C16.roundtrip_json_full := by
+  intro t v h g
+  obtain ⟨w, d1, d2, d3, d4, _⟩ := rj v t h.1 h.2 g
   have ok := okDoc_spec (jd_enc v t h.2 g)
   exact ⟨jd (encode t v), ok.1, w, d1, by rw [(okDoc_spec d3).1, d2], d4⟩
 
-/-- for a type that meets `jtOK` the full statement holds -/
-theorem C16.roundtrip_json_of_jtOK : (∀ t, jtOK t = true) → C16.roundtrip_json_full :=
-  fun hall t v h g => C16.roundtrip_json_partial t v h g (hall t)
+/-- "encodes like the zero value" – what omitempty tests – is preserved by the JSON round trip, for every type (the
+lemma that was missing for omitempty arrays and structs with an open component) -/
+theorem C16.json_omitempty_stable (t : GoType) (v : GoVal) (h : HasType v t) (g : jsonOK t v = true) :
+    ∃ w, decode t (jd (encode t v)) = .ok w ∧
+      equal (encode t w) (zeroDoc t) = equal (encode t v) (zeroDoc t) := by
+  obtain ⟨w, d1, _, _, _, d5⟩ := rj v t h.1 h.2 g
+  exact ⟨w, d1, d5⟩
+
+/-- the earlier partial statement (with the static-type condition `jtOK`), now a corollary -/
+theorem C16.roundtrip_json_partial (t : GoType) (v : GoVal) (h : HasType v t) (g : jsonOK t v = true)
+    (_hj : jtOK t = true) :
+    ∃ j, jsonForm (encode t v) = some j ∧
+      ∃ v', decode t j = .ok v' ∧ jsonForm (encode t v') = some j ∧ (closed t = true → v' = canon t v) :=
+  C16.roundtrip_json t v h g
 
 /-- non-vacuity: a struct with an inline struct, an omitempty `any` holding a list with a null and an int, an
 omitempty closed struct, an inline `map[string]any` with a nested map, a pointer to 2^53 and a `[]byte` -/
-theorem C16.roundtrip_json_partial_nonvacuous :
+theorem C16.roundtrip_json_nonvacuous :
     let t : GoType := .struct (.cons .inline [] (.struct (.cons .named [105] .str (.cons .omit [110] (.ptr (.int .w64)) .nil)))
       (.cons .omit [111] .any (.cons .omit [115] (.struct (.cons .named [120] .dur .nil))
       (.cons .inline [] (.map .any) (.cons .named [98] .bytes .nil)))))
@@ -232,4 +241,42 @@ theorem C16.roundtrip_json_partial_nonvacuous :
       (.cons (.map (.cons [126] (.any (.map .str) (.map (.cons [107] (.str [118]) .nil))) .nil))
       (.cons (.bytes [1, 2, 255]) .nil)))))
     HasType v t ∧ jsonOK t v = true ∧ jtOK t = true := by
+  decide
+
+
+/-- non-vacuity for the case that needed the new lemma: omitempty fields of struct and array type with an open
+component (`struct{X any}` holding an int, `[2]any` holding null and text) -/
+theorem C16.roundtrip_json_nonvacuous_open_omitempty :
+    let t : GoType := .struct (.cons .omit [115] (.struct (.cons .named [120] .any .nil))
+      (.cons .omit [114] (.arr 2 .any) .nil))
+    let v : GoVal := .struct (.cons (.struct (.cons (.any (.int .w64) (.int 0)) .nil))
+      (.cons (.arr (.cons .anyNil (.cons (.any .str (.str [104, 105])) .nil))) .nil))
+    HasType v t ∧ jsonOK t v = true ∧ jtOK t = false := by
+  decide
+
+
+/-! ## `*time.Time`: the RFC 3339 text form -/
+
+/-- **`time.Parse(RFC3339) ∘ MarshalText = id`** on the representable range: for an instant (`ms` milliseconds and
+`sub < 10^6` nanoseconds) shown in a zone `off` seconds east of UTC (whole minutes, less than a day) whose civil year
+is within 0 … 9999 – i.e. whenever `rfc3339` (the model of `MarshalText`, compared with Go's text by the harness)
+yields a text – parsing the text returns the same instant and the same offset. -/
+theorem C16.rfc3339_parse_format (ms : Int) (sub : Nat) (off : Int) (text : List Nat) (hsub : sub < 1000000)
+    (h60 : off % 60 = 0) (hlo : -86400 < off) (hhi : off < 86400) (h : rfc3339 ms sub off = some text) :
+    parseRFC3339 text = some (ms, sub, off) :=
+  rfc3339_rt ms sub off text hsub h60 hlo hhi h
+
+/-- the text form decodes into a `time.Time` with the same instant, nanoseconds included; "Z" comes back as UTC, any
+other offset as a fixed zone (zone class 2) -/
+theorem C16.time_text_decodes (ms : Int) (sub : Nat) (off : Int) (text : List Nat) (hsub : sub < 1000000)
+    (h60 : off % 60 = 0) (hlo : -86400 < off) (hhi : off < 86400) (h : rfc3339 ms sub off = some text)
+    (hms : inInt64 ms = true) :
+    decode .time (.str text) = .ok (.time ms (sub * 3 + (if off = 0 then 0 else 2))) := by
+  simp [decode, runLeaves, leavesTime, Uniflow.Group.decode, Uniflow.Group.lookup, Uniflow.Group.loop, List.zipIdx,
+    fromR, rfc3339_rt ms sub off text hsub h60 hlo hhi h, hms]
+
+/-- non-vacuity: 2024-01-02T07:34:05.006000123+05:30 -/
+theorem C16.time_text_nonvacuous :
+    rfc3339 1704161045006 123 19800 = some [50, 48, 50, 52, 45, 48, 49, 45, 48, 50, 84, 48, 55, 58, 51, 52, 58, 48, 53,
+      46, 48, 48, 54, 48, 48, 48, 49, 50, 51, 43, 48, 53, 58, 51, 48] := by
   decide
